@@ -9,7 +9,7 @@ def build(chk, d, flags=V.RELEASE, tag='rel'):
         chk.broken_tie('sequential oracle (%s build) does not compile against the current tree' % tag, log[-1500:]); return None
     return h
 
-def run(chk, h, jobs, prefixes, tag='rel', known_suffix=None, timeout=600):
+def run(chk, h, jobs, prefixes, tag='rel', known_suffix=None, timeout=600, crash_key=None):
     """jobs: list of (seed, ops, row, flags); prefixes: FAIL-key prefixes that belong to this property (others are reported by their own check).
     A crash of the allocator is a violation of every property that uses this oracle."""
     cmds = [([h, str(sd), str(ops), str(row), str(fl)], None, timeout) for sd, ops, row, fl in jobs]
@@ -20,7 +20,7 @@ def run(chk, h, jobs, prefixes, tag='rel', known_suffix=None, timeout=600):
                 'how_to_run': 'gcc -O1 -I/repo/include -DVERIF_STATIC_C=\\"/repo/src/static.c\\" [-DNDEBUG -DMI_BUILD_RELEASE | -DMI_DEBUG=2] harness/seq.c -lpthread; ./a.out ' + ' '.join(cmd[1:])}
         if rc != 0 or 'DONE' not in out:
             last = [l for l in out.splitlines() if l][-1:] or ['']
-            chk.violation('%s/seq-crash' % chk.pid, 'allocator crashed / asserted in the sequential history (%s build, seed %s, %s ops, option row %s, flags %s; exit %d): %s %s' %
+            chk.violation(crash_key(cmd) if crash_key else '%s/seq-crash' % chk.pid, 'allocator crashed / asserted in the sequential history (%s build, seed %s, %s ops, option row %s, flags %s; exit %d): %s %s' %
                           (tag, cmd[1], cmd[2], cmd[3], cmd[4], rc, last[0][:200], err[-300:].replace('\n', ' ')), args)
             continue
         seen = set()
